@@ -10,7 +10,7 @@ CHECKS = {
   'C19': ('model_checking',
           'TLA+ spec GinDynReg.tla (symbol table, attribute chain, registration bookkeeping vs Python import semantics over a constant package tree) model-checked with TLC; TLC-built files written against a fresh real package tree and parsed by gin',
           'TLC checks for every file of up to 4 statements (import forms with colliding names, every spelling of an object reachable under two module paths, class / nested class / method / references, bad names, late enabling) that exactly the denoted object is configured, one configurable per object, and errors exactly where the file\'s own imports do not provide the name; simulated files are parsed by gin against a real temporary package (fresh module names per case), comparing error class, configured objects, behaviour through references, and - with a second file whose import collides - that config_str() re-parses to the same objects and is idempotent.',
-          'Include structures between files and the skip_unknown interaction (F11) are not in this model.',
+          'Include structures between files are not in this model; skip_unknown under dynamic registration is (known = resolvable through the file\'s imports).',
           'DESIGN.md section 6 C19'),
 
   'C18': ('model_checking',
@@ -33,7 +33,7 @@ CHECKS = {
   'C15': ('model_checking',
           'TLA+ spec GinParse.tla (C15_Reduced, C15_KnownApplied, C15_UnlistedStillError) model-checked with TLC; TLC-exported stores parsed by gin under every form of skip_unknown',
           'TLC checks that parsing with skip_unknown equals parsing the text with exactly the statements targeting unknown (listed) names and imports of missing modules deleted, over all stores within bounds and the forms False / True / list; stores are parsed by gin with list / tuple / set forms rotated.',
-          'Static registration only; the dynamic-registration reading of "known" (F11) is with C19.',
+          'GinParse covers static registration; the dynamic-registration reading of "known" is modelled in GinDynReg and checked by C19 (F11, fixed).',
           'DESIGN.md section 6 C15'),
   'C16': ('model_checking',
           'TLA+ spec GinParse.tla (prefix property, error class and location chain, provenance) model-checked with TLC; TLC-exported faulty stores parsed by gin',
